@@ -270,7 +270,7 @@ def disp_hunt(name, **kw):
     return j
 
 
-MENU_DISP = {"items": {"fund_disp": 10, "disp_swap": 6, "disp_dispatch": 6, "ugi": 6, "accrue": 6, "set_price": 3, "keeper_rate": 3, "bond": 2, "bond_st": 2,
+MENU_DISP = {"items": {"disp_swapdenom": 2, "fund_disp": 10, "disp_swap": 6, "disp_dispatch": 6, "ugi": 6, "accrue": 6, "set_price": 3, "keeper_rate": 3, "bond": 2, "bond_st": 2,
                        "unbond_b": 1, "unbond_st": 1, "claim": 2, "advance": 1, "slash": 1},
              "amax": 60, "dts": [1, 3], "probes": ["ugi"], "probe_every": 3}
 
